@@ -13,7 +13,6 @@ INVARIANT EmitState
 INVARIANT InvRoundTrip
 INVARIANT InvTwice
 INVARIANT InvEffect
-INVARIANT InvDeserConsistent
 INVARIANT InvC01
 INVARIANT InvMech
 PROPERTY RejectAtomic
